@@ -398,6 +398,32 @@ func (fg *FuncGen) call(v *ssa.Call, c *ssa.CallCommon, instr ssa.Instruction) {
 			}
 		}
 	}
+	// a function literal handed to the callee may be run by it any number of times: whatever the literal can write,
+	// in particular the captured variables of this activation, is unknown afterwards
+	closureRefs := map[string][]string{}
+	for _, a := range c.Args {
+		mc, ok := a.(*ssa.MakeClosure)
+		if !ok {
+			continue
+		}
+		if lit, ok := mc.Fn.(*ssa.Function); ok {
+			for f := range fg.g.funcEffects(lit) {
+				eff[f] = true
+			}
+		}
+		for _, bnd := range mc.Bindings {
+			pt, ok := bnd.Type().Underlying().(*types.Pointer)
+			if !ok {
+				continue
+			}
+			cell := map[string]bool{}
+			fg.g.typeFamilies(pt.Elem(), cell)
+			for f := range cell {
+				eff[f] = true
+				closureRefs[f] = append(closureRefs[f], fg.valueOf(bnd).S)
+			}
+		}
+	}
 	var fams []string
 	for f := range eff {
 		fams = append(fams, f)
@@ -417,7 +443,16 @@ func (fg *FuncGen) call(v *ssa.Call, c *ssa.CallCommon, instr ssa.Instruction) {
 		if strings.HasPrefix(f, "G_") {
 			continue
 		}
-		if ref, ok := assigned[f]; ok {
+		if crs := closureRefs[f]; len(crs) > 0 {
+			cond := "(< r " + wmBefore + ")"
+			if ref, ok := assigned[f]; ok {
+				cond += " (not (= r " + ref + "))"
+			}
+			for _, cr := range crs {
+				cond += " (not (= r " + cr + "))"
+			}
+			fg.emit("(assert (forall ((r Int)) (! (=> (and %s) (= (select %s r) (select %s r))) :pattern ((select %s r)))))", cond, sym, before, sym)
+		} else if ref, ok := assigned[f]; ok {
 			fg.emit("(assert (forall ((r Int)) (! (=> (and (< r %s) (not (= r %s))) (= (select %s r) (select %s r))) :pattern ((select %s r)))))", wmBefore, ref, sym, before, sym)
 		} else {
 			fg.emit("(assert (forall ((r Int)) (! (=> (< r %s) (= (select %s r) (select %s r))) :pattern ((select %s r)))))", wmBefore, sym, before, sym)
@@ -746,7 +781,7 @@ func (fg *FuncGen) appendOp(v *ssa.Call, c *ssa.CallCommon) {
 	// ownership: appending may write into the spare capacity of s
 	if !strings.HasPrefix(s.S, "nilslice") {
 		fg.counters["frame"]++
-		o := &Obligation{Name: fmt.Sprintf("%s/frame.%d", shortKey(fg.key), fg.counters["frame"]), Kind: "frame", Func: fg.key, Tags: []string{"C06", "C07"},
+		o := &Obligation{Name: fmt.Sprintf("%s/frame.%d", shortKey(fg.key), fg.counters["frame"]), Kind: "frame", Func: fg.key, Tags: []string{"C06", "C07", "C18"},
 			Guard: fg.curReach, Goal: fmt.Sprintf("(or (>= (sref %s) %s) (= (slen %s) (scap %s)))", s.S, fg.wm0, s.S, s.S), Pos: fg.g.pos(v.Pos()),
 			Text: "append target is owned by this call or has no spare capacity", Expect: "unsat", Params: fg.paramConsts, Block: fg.segIdx, Via: -1}
 		fg.obls = append(fg.obls, o)
